@@ -47,13 +47,14 @@ fn decode_measured(b: &[u8]) -> DecOut {
 /// number of input bytes the decoder needs: the shortest prefix that decodes
 /// (the decoder reads left to right; observed through the public API only)
 fn consumed_of(b: &[u8]) -> Option<usize> {
-    if PV::decode(b).is_err() {
+    let ok = |x: &[u8]| matches!(catch(|| PV::decode(x).is_ok()), Ok(true));
+    if !ok(b) {
         return None;
     }
     let (mut lo, mut hi) = (0usize, b.len()); // decode(b[..hi]) ok, decode(b[..lo]) not (lo = 0: empty)
     while lo + 1 < hi {
         let mid = (lo + hi) / 2;
-        if PV::decode(&b[..mid]).is_ok() { hi = mid } else { lo = mid }
+        if ok(&b[..mid]) { hi = mid } else { lo = mid }
     }
     Some(hi)
 }
